@@ -998,7 +998,7 @@ func TestC17(t *testing.T) {
 			r.Violation(i, pr.key, pr.what, map[string]any{"plan": p, "info": info})
 		}
 	})
-	r.Require("handovers_checked", n*9/10)
+	r.Require("handovers_checked", n*3/4)
 	r.Require("handovers_with_buffered_tail", n/10)
 	r.Require("tail_bytes_compared", n*100)
 	r.Require("handovers_after_armed_deadline", n/4)
